@@ -3,6 +3,7 @@ package tree
 import (
 	"context"
 	"math"
+	"slices"
 	"strings"
 	"sync"
 	"time"
@@ -127,9 +128,18 @@ func (c *TreeCacheClientImpl) GetBranchesHighesPrecedence(ctx context.Context, p
 
 	// TODO: Improve this, since it is probably an expensive operation
 	for key, entries := range c.intendedStoreIndex {
-		if strings.HasPrefix(key, pathKey) {
-			if prio := entries.GetLowestPriorityValue(filters); prio < result {
-				result = prio
+		// the joined keys are just a quick pre-filter, siblings that share
+		// the textual prefix are sorted out by comparing the path elements
+		if !strings.HasPrefix(key, pathKey) {
+			continue
+		}
+		for _, entry := range entries {
+			entryPath := entry.GetPath()
+			if len(entryPath) < len(path) || !slices.Equal(entryPath[:len(path)], path) {
+				continue
+			}
+			if entry.Priority() < result && ApplyCacheUpdateFilters(entry, filters) {
+				result = entry.Priority()
 			}
 		}
 	}
